@@ -481,52 +481,52 @@ package rueidis
 //@ func wire.Error
 
 //@ func singleClient.isRetryable
-//@   ensures [C28 only-transport-errors-and-loading-replies] result ==> (err != nil && err != Nil && err != ErrDoCacheAborted && (typeis(err, *RedisError) ==> ptrof(err, *RedisError).IsLoading()))
-//@   ensures [C28 ordinary-error-replies-are-not-retried] (typeis(err, *RedisError) && ptrof(err, *RedisError) != nil && !ptrof(err, *RedisError).IsLoading()) ==> !result
-//@   ensures [C28 nil-replies-are-not-retried] (err == nil || err == Nil) ==> !result
+//@   ensures [C28 C03 only-transport-errors-and-loading-replies] result ==> (err != nil && err != Nil && err != ErrDoCacheAborted && (typeis(err, *RedisError) ==> ptrof(err, *RedisError).IsLoading()))
+//@   ensures [C28 C03 ordinary-error-replies-are-not-retried] (typeis(err, *RedisError) && ptrof(err, *RedisError) != nil && !ptrof(err, *RedisError).IsLoading()) ==> !result
+//@   ensures [C28 C03 nil-replies-are-not-retried] (err == nil || err == Nil) ==> !result
 
 //@ func isRetryable
-//@   ensures [C28 only-transport-errors-and-loading-replies] result ==> (err != nil && err != Nil && (typeis(err, *RedisError) ==> ptrof(err, *RedisError).IsLoading()))
-//@   ensures [C28 ordinary-error-replies-are-not-retried] (typeis(err, *RedisError) && ptrof(err, *RedisError) != nil && !ptrof(err, *RedisError).IsLoading()) ==> !result
-//@   ensures [C28 nil-replies-are-not-retried] (err == nil || err == Nil) ==> !result
+//@   ensures [C28 C03 only-transport-errors-and-loading-replies] result ==> (err != nil && err != Nil && (typeis(err, *RedisError) ==> ptrof(err, *RedisError).IsLoading()))
+//@   ensures [C28 C03 ordinary-error-replies-are-not-retried] (typeis(err, *RedisError) && ptrof(err, *RedisError) != nil && !ptrof(err, *RedisError).IsLoading()) ==> !result
+//@   ensures [C28 C03 nil-replies-are-not-retried] (err == nil || err == Nil) ==> !result
 
 //@ func allRetryable
-//@   ensures [C28 every-command-of-the-batch] result ==> (forall k int :: {multi[k]} (0 <= k && k < len(multi)) ==> retryableCmd(multi[k]))
-//@   ensures [C28 false-names-a-command-that-is-not-retryable where-defined] !result ==> (0 <= rangeindex + 1 && rangeindex + 1 < len(multi) && !retryableCmd(multi[rangeindex + 1]))
-//@   loop 0: invariant [C28] rangeindex >= -1 && rangeindex < len(multi) && (forall k int :: {multi[k]} (0 <= k && k <= rangeindex) ==> retryableCmd(multi[k]))
+//@   ensures [C28 C03 every-command-of-the-batch] result ==> (forall k int :: {multi[k]} (0 <= k && k < len(multi)) ==> retryableCmd(multi[k]))
+//@   ensures [C28 C03 false-names-a-command-that-is-not-retryable where-defined] !result ==> (0 <= rangeindex + 1 && rangeindex + 1 < len(multi) && !retryableCmd(multi[rangeindex + 1]))
+//@   loop 0: invariant [C28 C03] rangeindex >= -1 && rangeindex < len(multi) && (forall k int :: {multi[k]} (0 <= k && k <= rangeindex) ==> retryableCmd(multi[k]))
 
 //@ func retryer.WaitOrSkipRetry
 //@   modifies *
-//@   ensures [C28 no-retry-on-a-negative-delay] returned(RetryDelay) < 0 ==> !result
-//@   ensures [C28 zero-delay-retries-at-once] returned(RetryDelay) == 0 ==> result
+//@   ensures [C28 C03 no-retry-on-a-negative-delay] returned(RetryDelay) < 0 ==> !result
+//@   ensures [C28 C03 zero-delay-retries-at-once] returned(RetryDelay) == 0 ==> result
 
 //@ immutable [C28] singleClient retry hasLftm
 //@ func singleClient.Do
 //@   modifies *
-//@   assert [C28 retry-is-considered-only-for-an-enabled-retryable-command-after-a-retryable-error] at WaitOrSkipRetry: c.retry && cmd.IsRetryable() && returned(isRetryable) && arg2 == attempts
-//@   ensures [C28 the-last-attempts-reply-is-returned-unchanged where-defined] resp == returned(Do)
-//@   loop 0: repeat-only-if [C28 resend-only-after-expiry-or-an-approved-retry] returned(Error) == errConnExpired || (c.retry && cmd.IsRetryable() && returned(isRetryable) && returned(WaitOrSkipRetry))
+//@   assert [C28 C03 retry-is-considered-only-for-an-enabled-retryable-command-after-a-retryable-error] at WaitOrSkipRetry: c.retry && cmd.IsRetryable() && returned(isRetryable) && arg2 == attempts
+//@   ensures [C28 C03 the-last-attempts-reply-is-returned-unchanged where-defined] resp == returned(Do)
+//@   loop 0: repeat-only-if [C28 C03 resend-only-after-expiry-or-an-approved-retry] returned(Error) == errConnExpired || (c.retry && cmd.IsRetryable() && returned(isRetryable) && returned(WaitOrSkipRetry))
 
 //@ func singleClient.DoMulti
 //@   modifies *
-//@   assert [C28 retry-is-considered-only-for-an-enabled-all-retryable-batch-after-a-retryable-error] at WaitOrSkipRetry: c.retry && (forall k int :: {multi[k]} (0 <= k && k < len(multi)) ==> retryableCmd(multi[k])) && returned(isRetryable) && arg2 == attempts
-//@   loop 0: repeat-only-if [C28 resend-only-after-an-approved-retry] c.retry && returned(allRetryable) && returned(isRetryable) && returned(WaitOrSkipRetry)
+//@   assert [C28 C03 retry-is-considered-only-for-an-enabled-all-retryable-batch-after-a-retryable-error] at WaitOrSkipRetry: c.retry && (forall k int :: {multi[k]} (0 <= k && k < len(multi)) ==> retryableCmd(multi[k])) && returned(isRetryable) && arg2 == attempts
+//@   loop 0: repeat-only-if [C28 C03 resend-only-after-an-approved-retry] c.retry && returned(allRetryable) && returned(isRetryable) && returned(WaitOrSkipRetry)
 
 //@ immutable [C28] dedicatedSingleClient retry
 //@ func dedicatedSingleClient.Do
 //@   modifies *
-//@   assert [C28 retry-is-considered-only-for-an-enabled-retryable-command-after-a-retryable-error] at WaitOrSkipRetry: c.retry && cmd.IsRetryable() && returned(isRetryable) && arg2 == attempts
-//@   loop 0: repeat-only-if [C28 resend-only-after-an-approved-retry] c.retry && cmd.IsRetryable() && returned(isRetryable) && returned(WaitOrSkipRetry)
+//@   assert [C28 C03 retry-is-considered-only-for-an-enabled-retryable-command-after-a-retryable-error] at WaitOrSkipRetry: c.retry && cmd.IsRetryable() && returned(isRetryable) && arg2 == attempts
+//@   loop 0: repeat-only-if [C28 C03 resend-only-after-an-approved-retry] c.retry && cmd.IsRetryable() && returned(isRetryable) && returned(WaitOrSkipRetry)
 
 //@ immutable [C28] sentinelClient retry hasLftm
 //@ func sentinelClient.isRetryable
-//@   ensures [C28 only-transport-errors-and-loading-replies] result ==> (err != nil && err != Nil && err != ErrDoCacheAborted && (typeis(err, *RedisError) ==> ptrof(err, *RedisError).IsLoading()))
-//@   ensures [C28 ordinary-error-replies-are-not-retried] (typeis(err, *RedisError) && ptrof(err, *RedisError) != nil && !ptrof(err, *RedisError).IsLoading()) ==> !result
-//@   ensures [C28 nil-replies-are-not-retried] (err == nil || err == Nil) ==> !result
+//@   ensures [C28 C03 only-transport-errors-and-loading-replies] result ==> (err != nil && err != Nil && err != ErrDoCacheAborted && (typeis(err, *RedisError) ==> ptrof(err, *RedisError).IsLoading()))
+//@   ensures [C28 C03 ordinary-error-replies-are-not-retried] (typeis(err, *RedisError) && ptrof(err, *RedisError) != nil && !ptrof(err, *RedisError).IsLoading()) ==> !result
+//@   ensures [C28 C03 nil-replies-are-not-retried] (err == nil || err == Nil) ==> !result
 //@ func sentinelClient.Do
 //@   modifies *
-//@   assert [C28 retry-is-considered-only-for-an-enabled-retryable-command-after-a-retryable-error] at WaitOrSkipRetry: c.retry && cmd.IsRetryable() && returned(isRetryable) && arg2 == attempts
-//@   loop 0: repeat-only-if [C28 resend-only-after-expiry-or-an-approved-retry] returned(Error) == errConnExpired || (c.retry && cmd.IsRetryable() && returned(isRetryable) && returned(WaitOrSkipRetry))
+//@   assert [C28 C03 retry-is-considered-only-for-an-enabled-retryable-command-after-a-retryable-error] at WaitOrSkipRetry: c.retry && cmd.IsRetryable() && returned(isRetryable) && arg2 == attempts
+//@   loop 0: repeat-only-if [C28 C03 resend-only-after-expiry-or-an-approved-retry] returned(Error) == errConnExpired || (c.retry && cmd.IsRetryable() && returned(isRetryable) && returned(WaitOrSkipRetry))
 
 // cluster batches: a reply is queued for another round (under the lock) in retry mode only when retries are enabled,
 // the command is retryable and RetryDelay answered with a non-negative delay; every round of DoMulti / DoMultiCache starts
@@ -534,16 +534,16 @@ package rueidis
 //@ immutable [C28] clusterClient retry
 //@ func clusterClient.doresultfn
 //@   modifies *
-//@   assert [C28 queued-in-retry-mode-only-with-a-granted-delay] at Lock: mode == RedirectRetry ==> (c.retry && cm.IsRetryable() && retryDelay >= 0 && retryDelay == returned(RetryDelay))
+//@   assert [C28 C03 queued-in-retry-mode-only-with-a-granted-delay] at Lock: mode == RedirectRetry ==> (c.retry && cm.IsRetryable() && retryDelay >= 0 && retryDelay == returned(RetryDelay))
 //@ func clusterClient.resultcachefn
 //@   modifies *
-//@   assert [C28 queued-in-retry-mode-only-with-a-granted-delay] at Lock: mode == RedirectRetry ==> (c.retry && retryDelay >= 0 && retryDelay == returned(RetryDelay))
+//@   assert [C28 C03 queued-in-retry-mode-only-with-a-granted-delay] at Lock: mode == RedirectRetry ==> (c.retry && retryDelay >= 0 && retryDelay == returned(RetryDelay))
 //@ func clusterClient.DoMulti
 //@   modifies *
-//@   assert [C28 every-round-starts-with-no-retry-pending] at Add: retries.RetryDelay == -1
+//@   assert [C28 C03 every-round-starts-with-no-retry-pending] at Add: retries.RetryDelay == -1
 //@ func clusterClient.DoMultiCache
 //@   modifies *
-//@   assert [C28 every-round-starts-with-no-retry-pending] at Add: retries.RetryDelay == -1
+//@   assert [C28 C03 every-round-starts-with-no-retry-pending] at Add: retries.RetryDelay == -1
 
 // ---------------------------------------------------------------------------------------------
 // C12 — an integer line decodes to exactly the number it spells (resp.go readI), in 64-bit arithmetic: the
@@ -755,6 +755,31 @@ package rueidis
 //@ func dedicatedClusterClient.Do #c33
 //@   modifies *
 //@   assert [C33 recycled-only-after-a-clean-reply-to-the-latest-send] at PutCompleted: arg0 == cmd && returned(Do).err == nil && resp == returned(Do)
+
+// ---------------------------------------------------------------------------------------------
+// C03 — a command that is not retryable is sent again only after a reply that proves it was not executed (cluster.go).
+// The cluster client's single-command path: every jump back to a send is justified at the jump.
+//@ func clusterClient.shouldRefreshRetry #c03
+//@   modifies *
+//@   ensures [C03 a-moved-redirect-needs-a-moved-reply] mode == RedirectMove ==> (typeis(err, *RedisError) && second(returned(IsMoved)) && addr == first(returned(IsMoved)))
+//@   ensures [C03 an-ask-redirect-needs-an-ask-reply] mode == RedirectAsk ==> (typeis(err, *RedisError) && second(returned(IsAsk)) && addr == first(returned(IsAsk)))
+//@   ensures [C03 no-redirect-without-an-error] (err == nil || err == Nil) ==> mode == RedirectNone
+
+//@ func clusterClient.do #c03
+//@   modifies *
+//@   loop 0: repeat-only-if [C03 sent-again-only-after-expiry-or-an-approved-retry-of-a-retryable-command] returned(NonRedisError) == errConnExpired || (c.retry && cmd.IsRetryable() && returned(WaitOrSkipRetry))
+//@   loop 2: repeat-only-if [C03 resent-to-the-moved-target-only-after-expiry] returned(NonRedisError) == errConnExpired
+//@   loop 3: repeat-only-if [C03 resent-to-the-ask-target-only-after-expiry] returned(NonRedisError) == errConnExpired
+//@   assert [C03 sent-to-another-node-only-after-moved] at Do#2: mode == RedirectMove && arg2 == cmd
+//@   assert [C03 sent-with-asking-only-after-ask] at DoMulti: mode == RedirectAsk && len(arg2) == 2 && arg2[0] == cmds.AskingCmd && arg2[1] == cmd
+
+//@ func dedicatedClusterClient.Do #c03
+//@   modifies *
+//@   loop 0: repeat-only-if [C03 sent-again-only-after-an-approved-retry-of-a-retryable-command] c.retry && cmd.IsRetryable() && returned(WaitOrSkipRetry)
+//@ func dedicatedClusterClient.DoMulti #c03
+//@   modifies *
+//@   loop 0: repeat-only-if [C03 batch-sent-again-only-after-an-approved-retry-of-an-all-retryable-batch] retryable && returned(WaitOrSkipRetry)
+//@   assert [C03 the-batch-counts-as-retryable-only-if-every-command-is] at acquire: retryable ==> returned(allRetryable)
 
 // ---------------------------------------------------------------------------------------------
 // C07 — cached replies expire at the earlier of the client TTL and the server PTTL (message.go, lru.go).
